@@ -322,7 +322,7 @@ func (c18) Eval(c *Case) (*Violation, bool) {
 		}
 		owner[i] = lastRead[op.Task]
 	}
-	nfaults, ncrash, nimg := 0, 0, 0
+	nfaults, ncrash, nimg, nrerun := 0, 0, 0, 0
 	for _, op := range base.Trace {
 		kinds := faultKindsFor(op.Op)
 		for _, k := range kinds {
@@ -427,10 +427,71 @@ func (c18) Eval(c *Case) (*Violation, bool) {
 				return v, false
 			}
 		}
+		// after the crash the user runs the command again, undisturbed, on what
+		// the disk holds (including whatever the crashed run left behind): the
+		// targets must end up with exactly the new contents
+		tried := 0
+		for _, img := range imgs {
+			leftover := false
+			for pth := range img {
+				if _, ok := old[pth]; !ok {
+					leftover = true
+				}
+			}
+			if !leftover && tried > 0 {
+				continue
+			}
+			if tried >= 3 {
+				break
+			}
+			tried++
+			sp := mk(nil)
+			sp.Files = map[string]string(img)
+			o2 := Run(sp)
+			nrerun++
+			if o2.Outcome != simrt.OutReturned && o2.Outcome != simrt.OutExit {
+				return &Violation{Signature: "abnormal-end:" + o2.Outcome + ":rerun", Msg: fmt.Sprintf("re-running %s after a crash before op %d ended with %s %s", cmd, p, o2.Outcome, o2.PanicValue)}, false
+			}
+			if o2.OK() != base.OK() {
+				continue
+			}
+			if leftover && strings.HasPrefix(c.Sub, "format") && len(c.Links) == 0 {
+				// ... or the user first shortens the journal (drops its second half)
+				// and then runs the command: what the crashed run left behind must
+				// not leak into the result
+				t0 := (c18{}).targets(c)[0]
+				blocks := strings.Split(old[t0], "\n\n")
+				if len(blocks) > 3 {
+					short := strings.Join(blocks[:len(blocks)/2], "\n\n") + "\n"
+					clean := copyFiles(old)
+					clean[t0] = short
+					spc := mk(nil)
+					spc.Files = clean
+					ref := Run(spc)
+					dirty := copyFiles(map[string]string(img))
+					dirty[t0] = short
+					spd := mk(nil)
+					spd.Files = dirty
+					got := Run(spd)
+					nrerun++
+					if ref.OK() == got.OK() && got.FS[t0] != ref.FS[t0] {
+						c.Faults = map[int]simrt.Fault{p: {Kind: "crash"}}
+						return &Violation{Signature: "rerun-after-crash-corrupts:edited", Msg: fmt.Sprintf("crash before op %d (%s), then the journal is shortened and the command run again: %s holds %d bytes, a run without the crashed run's leftovers gives %d", p, opName(base.Trace, p), t0, len(got.FS[t0]), len(ref.FS[t0])), Detail: describeImage(img)}, false
+					}
+				}
+			}
+			for _, t := range (c18{}).targets(c) {
+				if o2.FS[t] != newc[t] {
+					c.Faults = map[int]simrt.Fault{p: {Kind: "crash"}}
+					return &Violation{Signature: "rerun-after-crash-corrupts", Msg: fmt.Sprintf("crash before op %d (%s), then an undisturbed run of the same command: %s does not hold the new contents (%d bytes, expected %d)", p, opName(base.Trace, p), t, len(o2.FS[t]), len(newc[t])), Detail: describeImage(img)}, false
+				}
+			}
+		}
 	}
 	Extra["write_faults_enumerated"] += nfaults
 	Extra["crash_points"] += ncrash
 	Extra["crash_images_checked"] += nimg
+	Extra["reruns_after_crash"] += nrerun
 	return nil, false
 }
 
